@@ -51,6 +51,7 @@ type Violation struct {
 	Site      string            `json:"site"`
 	Nondets   []NondetVal       `json:"nondets"`
 	Decisions []int             `json:"decisions"`
+	Phase     string            `json:"phase"`
 	Extra     map[string]string `json:"extra,omitempty"`
 }
 
@@ -120,6 +121,10 @@ type Machine struct {
 	notes       []string
 	reached     map[string]bool
 	violSeen    map[string]int
+	phase       string
+	fixed       []NondetVal // concrete mode: recorded nondet values
+	fixedPos    int
+	fixedSeed   uint64
 	lastPanic   string
 }
 
@@ -354,7 +359,7 @@ func (m *Machine) violate(kind, label string, extra *Term) {
 	m.violSeen[key]++
 	if m.violSeen[key] > 3 {
 		// already witnessed with models; only count further occurrences
-		m.violations = append(m.violations, Violation{Kind: kind, Label: label, Site: m.site(), Decisions: append([]int(nil), m.trace...), Extra: map[string]string{"dup": "1"}})
+		m.violations = append(m.violations, Violation{Kind: kind, Label: label, Site: m.site(), Phase: m.phase, Decisions: append([]int(nil), m.trace...), Extra: map[string]string{"dup": "1"}})
 		return
 	}
 	nd, ok := m.model(extra)
@@ -363,13 +368,18 @@ func (m *Machine) violate(kind, label string, extra *Term) {
 		m.stats.Unknowns++
 		return
 	}
-	m.violations = append(m.violations, Violation{Kind: kind, Label: label, Site: m.site(), Nondets: nd, Decisions: append([]int(nil), m.trace...)})
+	m.violations = append(m.violations, Violation{Kind: kind, Label: label, Site: m.site(), Phase: m.phase, Nondets: nd, Decisions: append([]int(nil), m.trace...)})
 }
 
 // check: harness assertion. Violated if pc ∧ ¬cond is satisfiable.
 func (m *Machine) check(cond *Term, label string) {
 	cond = m.simp(cond)
 	if cond.IsConst() && cond.Val != 0 {
+		return
+	}
+	if m.fixed != nil && cond.IsConst() {
+		// concrete mode: record the failed check and keep going, like the native harness does
+		m.violations = append(m.violations, Violation{Kind: "check", Label: label, Site: m.site(), Phase: m.phase})
 		return
 	}
 	neg := m.ctx.Not(cond)
